@@ -12,16 +12,16 @@ Lemma Rt_step_procend s o th i s0 (b : bool) s' : Rt s o -> ev_facts o (if b the
   (forall j, has_inst s j -> has_inst s' j) ->
   step_procend s th i s0 b = Some s' -> Rt s' o.
 Proof.
-  intros HRt Hev Hh H. pose proof HRt as [H1 Ha Hb H2 H3 H4 H5 H6].
-  kind_cases H; cbn in Hev; split_andb; subst; rt_pre; rt_direct H1 Ha Hb H2 H3 H4 H5 H6 Hh.
+  intros HRt Hev Hh H. pose proof HRt as [H1 Ha Hb H2 H3 H4 He H5 H6].
+  kind_cases H; cbn in Hev; split_andb; subst; rt_pre; rt_direct H1 Ha Hb H2 H3 H4 He H5 H6 Hh.
   all: split; [discriminate|intros [= <-]; right; exact Hev].
 Qed.
 
 Lemma Rt_step_shutdown s o th e s' : Rt s o -> ev_facts o e -> (forall j, has_inst s j -> has_inst s' j) ->
   step_shutdown s th e = Some s' -> Rt s' o.
 Proof.
-  intros HRt Hev Hh H. pose proof HRt as [H1 Ha Hb H2 H3 H4 H5 H6].
-  destruct e; kind_cases H; cbn in Hev; split_andb; subst; rt_pre; rt_direct H1 Ha Hb H2 H3 H4 H5 H6 Hh.
+  intros HRt Hev Hh H. pose proof HRt as [H1 Ha Hb H2 H3 H4 He H5 H6].
+  destruct e; kind_cases H; cbn in Hev; split_andb; subst; rt_pre; rt_direct H1 Ha Hb H2 H3 H4 He H5 H6 Hh.
   all: try (intros [= <- <-]; apply Hev).
   intros Hq. apply (Hb th). destruct (apc (get_thread s th)); try exact Hq; destruct Hq as [Hq|[? Hq]]; discriminate.
 Qed.
@@ -30,34 +30,35 @@ Lemma Rt_step_ordered s o th i s' : Rt s o -> (forall j, has_inst s j -> has_ins
   step_ordered_go s th i = Some s' -> Rt s' o.
 Proof.
   intros HRt Hh H.
-  kind_cases H; split_andb. pose proof HRt as [H1 Ha Hb H2 H3 H4 H5 H6]. rt_pre; rt_direct H1 Ha Hb H2 H3 H4 H5 H6 Hh.
-  intros [= <-]. eapply H2; eauto.
+  kind_cases H; split_andb. pose proof HRt as [H1 Ha Hb H2 H3 H4 He H5 H6]. rt_pre; rt_direct H1 Ha Hb H2 H3 H4 He H5 H6 Hh.
+  intros [= <- <-]. eapply H2; eauto.
 Qed.
 
-Lemma Rt_step_env s o th e s' : Rt s o -> (forall j, has_inst s j -> has_inst s' j) ->
+Lemma Rt_step_env s o th e s' : Rt s o -> ev_facts o e -> (forall j, has_inst s j -> has_inst s' j) ->
   step_env s th e = Some s' -> Rt s' o.
 Proof.
-  intros HRt Hh H. pose proof HRt as [H1 Ha Hb H2 H3 H4 H5 H6].
-  destruct e; kind_cases H; split_andb; subst; rt_pre; rt_direct H1 Ha Hb H2 H3 H4 H5 H6 Hh.
+  intros HRt Hev Hh H. pose proof HRt as [H1 Ha Hb H2 H3 H4 He H5 H6].
+  destruct e; kind_cases H; cbn in Hev; split_andb; subst; rt_pre; rt_direct H1 Ha Hb H2 H3 H4 He H5 H6 Hh.
+  intros [= <- <-]. exact Hev.
 Qed.
 
 Lemma Rt_step_own s o th e s' : Rt s o -> (forall j, has_inst s j -> has_inst s' j) ->
   step_own s th e = Some s' -> Rt s' o.
 Proof.
-  intros HRt Hh H. pose proof HRt as [H1 Ha Hb H2 H3 H4 H5 H6].
-  destruct e; kind_cases H; split_andb; subst; rt_pre; rt_direct H1 Ha Hb H2 H3 H4 H5 H6 Hh.
+  intros HRt Hh H. pose proof HRt as [H1 Ha Hb H2 H3 H4 He H5 H6].
+  destruct e; kind_cases H; split_andb; subst; rt_pre; rt_direct H1 Ha Hb H2 H3 H4 He H5 H6 Hh.
 Qed.
 
 Lemma Rt_step_reg s o th e s' : Rt s o -> (forall j, has_inst s j -> has_inst s' j) ->
   step_reg s th e = Some s' -> Rt s' o.
 Proof.
-  intros HRt Hh H. pose proof HRt as [H1 Ha Hb H2 H3 H4 H5 H6].
-  destruct e; kind_cases H; split_andb; subst; rt_pre; rt_direct H1 Ha Hb H2 H3 H4 H5 H6 Hh.
-  - cbn. destruct (in_set_inv _ _ _ _ Hp) as [->|Hp']; [cbn; congruence|apply H1, Hp'].
-  - cbn. apply H1. eapply in_del_inv, Hp.
+  intros HRt Hh H. pose proof HRt as [H1 Ha Hb H2 H3 H4 He H5 H6].
+  destruct e; kind_cases H; split_andb; subst; rt_pre; rt_direct H1 Ha Hb H2 H3 H4 He H5 H6 Hh.
+  - destruct (in_set_inv _ _ _ _ Hp) as [->|Hp']; [|apply Hh, H1, Hp'].
+    split; [cbn; congruence|]. intros t. cbn. rewrite get_set, N.eqb_refl. discriminate.
+  - apply Hh, H1. eapply in_del_inv, Hp.
   - intros [= <- ->]. match goal with Hf : opt_eqb N.eqb _ _ = true |- _ => apply opt_eqb_N_eq in Hf; symmetry in Hf; apply get_in in Hf end.
     match goal with Hf : In _ _ |- _ => apply (H1 _ Hf) end.
-(*STOP*)
 Qed.
 
 End RtB.
